@@ -47,7 +47,16 @@ def gen_world(rng, kinds, big=False):
             old = list(classes)
             rng.shuffle(old)
             w["relabel"] = dict(old=old, touch_root_first=rng.random() < 0.7)
+    rx = core.Streams(f"cluster-extra/{W}/{N}/{w['seed']}/{kind}")("x")  # independent of the draws above: older plans keep their worlds
+    if kind == "cb" and w["form"] == "persample" and not w.get("relabel") and rx.random() < 0.4:
+        w["label_read_fails_at"] = sorted({rx.randint(1, max(1, w["N"])) for _ in range(rx.randint(1, 2))})
+    if kind == "weighted" and rx.random() < 0.15:
+        w["multinomial_fails"] = True  # stands for a draw over more than 2**24 categories, which torch.multinomial refuses
     return w
+
+
+class LoudFailure(Exception):
+    """an injected dependency failure reached the caller: the epoch (or the construction) is lost, nothing wrong was handed out"""
 
 
 def make_dataset(w):
@@ -66,7 +75,7 @@ def make_dataset(w):
         return list(range(w["N"]))
     if w["kind"] == "cb":
         if w["form"] == "persample":
-            return PerSampleLabelDataset(w["classes"], w["nc"])
+            return PerSampleLabelDataset(w["classes"], w["nc"], fail_at=w.get("label_read_fails_at") or ())
         return LabelDataset(w["classes"], w["nc"], w["form"])
     if w["kind"] == "semi":
         return LabelDataset(w["classes"], 3, w["form"])
@@ -179,7 +188,7 @@ def gen_plan(seed, kinds, big=False):
     rf = st("faults")
     faults = []
     for _ in range(rf.choice([0, 1, 2, 3])):
-        faults.append(dict(kind=rf.choice(["restart", "clobber", "clobber", "reiter", "peek", "prefetch_next"]), rank=rf.randrange(w["W"]),
+        faults.append(dict(kind=rf.choice(["restart", "clobber", "clobber", "reiter", "peek", "prefetch_next", "ship"]), rank=rf.randrange(w["W"]),
                            pos=rf.randrange(len(epochs)), at=rf.randint(0, 6), which=rf.choice(["py", "np", "torch", "advance"]),
                            seed=rf.randint(0, 999)))
     return dict(world=w, epochs=epochs, faults=faults, sched_seed=st("sched").getrandbits(32), amb_seed=st("amb").getrandbits(31))
@@ -212,6 +221,16 @@ def run_cluster(plan, out):
         out.count("fault:launcher_environment_variables_without_process_group")
 
     def construct(r):
+        from .simdata import InjectedReadError
+        for attempt in range(4):
+            try:
+                return construct_once(r)
+            except InjectedReadError:
+                # the storage failed once while the sampler read the labels: the rank sees the error and builds the sampler again
+                out.count("fault:label_read_error_during_sampler_construction")
+        raise RuntimeError("sampler construction keeps failing")
+
+    def construct_once(r):
         if implicit and w.get("pre_init_activity"):
             # the process does something with the library BEFORE the process group exists (e.g. builds an evaluation sampler),
             # then initialises the group and builds the real sampler - all in one time slice of that process
@@ -224,11 +243,37 @@ def run_cluster(plan, out):
         with procs[r].on_cpu(), as_rank(r, W, implicit):
             samplers[r] = make_sampler(w, ds[r], r, W, implicit)
 
+    import torch
+    real_multinomial = torch.multinomial
+    if w.get("multinomial_fails"):
+        def refusing_multinomial(*a, **k):
+            out.count("fault:torch_multinomial_refuses")
+            raise RuntimeError("number of categories cannot exceed 2^24 (injected)")
+        torch.multinomial = refusing_multinomial
+    try:
+        return _run_cluster(plan, out, w, W, ch, base_ds, procs, refp, ds, samplers, implicit, construct)
+    except RuntimeError as e:
+        if w.get("multinomial_fails") and "injected" in str(e):
+            raise LoudFailure(str(e))
+        raise
+    finally:
+        torch.multinomial = real_multinomial
+
+
+def _run_cluster(plan, out, w, W, ch, base_ds, procs, refp, ds, samplers, implicit, construct):
+    from simkit.simproc import SimProcess, pickle_copy
     try:
         for r in range(W):
             construct(r)
         with refp.on_cpu(), as_rank(0, 1, False, key="ref"):
-            ref = make_sampler(w, pickle_copy(base_ds), 0, 1)
+            from .simdata import InjectedReadError
+            ref_ds = pickle_copy(base_ds)
+            for attempt in range(4):
+                try:
+                    ref = make_sampler(w, ref_ds, 0, 1)
+                    break
+                except InjectedReadError:
+                    pass
     except AssertionError as e:
         raise Rejected(str(e))
     res = dict(streams=[], lens=[], prefix_ok=[], reiter_ok=[], ref=[], ref_len=[])
@@ -236,6 +281,27 @@ def run_cluster(plan, out):
         order = list(range(W))
         ch.rng.shuffle(order)
         its = [None] * W
+        for f in plan["faults"]:
+            if f["kind"] == "ship" and f["pos"] == pos and f["rank"] < W:
+                # the rank's sampler object crosses a process boundary (requeue, hand-over to a spawned trainer process, deepcopy):
+                # pickled here, used there; the receiving process has the same process group iff ranks come from the group
+                r = f["rank"]
+                import copy
+                import pickle
+                try:
+                    if f["at"] % 3 == 0:
+                        with procs[r].on_cpu(), as_rank(r, W, implicit):
+                            samplers[r] = copy.deepcopy(samplers[r])
+                        out.count("fault:sampler_object_deepcopied")
+                    else:
+                        with procs[r].on_cpu(), as_rank(r, W, implicit):
+                            blob = pickle.dumps(samplers[r])
+                        procs[r] = SimProcess(f"rank{r}-respawn{pos}", plan["amb_seed"] + 104729 * (r + 1) + pos)
+                        with procs[r].on_cpu(), as_rank(r, W, implicit, key=f"{r}-respawn{pos}"):
+                            samplers[r] = pickle.loads(blob)
+                        out.count("fault:sampler_object_shipped_to_another_process")
+                except (TypeError, pickle.PicklingError, AttributeError) as e:
+                    out.count("sampler_not_picklable")
         for r in order:
             with procs[r].on_cpu(), as_rank(r, W, implicit):
                 if hasattr(samplers[r], "set_epoch"):
